@@ -4,3 +4,6 @@ INVARIANT InvWalk
 INVARIANT InvTiles
 CONSTRAINT EmitConstraint
 CHECK_DEADLOCK FALSE
+INVARIANT BpchNeverFabricates
+INVARIANT BpchFullFileReadsAll
+INVARIANT BpchPartialBlock
